@@ -14,21 +14,32 @@ PID = "C14"
 ON_LIBRARY_RAISE = "skip"  # the statement is about values that are produced; a raising parse is C01's finding
 LEVEL = "exploration"
 RULE = (
-    "Texts = bundled corpus sentences + all 1-token texts x the full option product (scorer {shipped, constant, random(seed)} x latent {on,off} x max_stack_depth {10,0,1} "
+    "Texts = bundled corpus sentences + all 1-token texts x the full option product (scorer {shipped, constant, random(seed) [preceded by a call with a differently seeded random scorer], coverage = log covered share} x latent {on,off} x max_stack_depth {10,0,1} "
     "x relative_match_len {1.0,0.5}; depth 0 only for 1-token texts in quick) + all 2-token texts x 2 option vectors; timeout=0.  Oracle: ctparse(args) equals (value, span, "
     "production, score, subject, labels) some maximal-score element of list(ctparse_gen(args)); empty resolution iff empty stream; all scores finite floats; with latent off a "
     "repeated value is streamed only with a strictly higher score.  One evaluation = one (text, ts, options) pair of runs; non-trivial = non-empty stream; distinct = distinct argument tuples."
 )
 ASSUMPTIONS = ["the random scorer is seeded identically for both entry points", "texts bounded as in C01"]
 
-SCORERS = ("shipped", "dummy", "random")
+SCORERS = ("shipped", "dummy", "random", "coverage")
 
 
 def _mk(kind, seed):
-    from ctparse.scorer import DummyScorer, RandomScorer
+    import math as _m
+
+    from ctparse.scorer import DummyScorer, RandomScorer, Scorer
+
+    class Coverage(Scorer):
+        """log of the covered share: exactly 0.0 for a full-coverage candidate, negative otherwise (a legal user scorer)"""
+
+        def score(self, txt, ts, pp):
+            return _m.log((pp.prod[-1].mend - pp.prod[0].mstart) / len(txt))
+
+        def score_final(self, txt, ts, pp, prod):
+            return _m.log(len(prod) / len(txt))
 
     m = lib()[2]
-    return {"shipped": lambda: m._DEFAULT_SCORER, "dummy": DummyScorer, "random": lambda: RandomScorer(Random(seed))}[kind]()
+    return {"shipped": lambda: m._DEFAULT_SCORER, "dummy": DummyScorer, "random": lambda: RandomScorer(Random(seed)), "coverage": Coverage}[kind]()
 
 
 def plan(tier, seed):
@@ -61,7 +72,7 @@ def plan(tier, seed):
         "texts_1_token": len(k1),
         "corpus_sentences": len(corp),
         "texts_2_tokens": len(k2),
-        "option_vectors_full": 36,
+        "option_vectors_full": 48,
         "option_vectors_2_tokens": len(k2_vecs),
         "reference_times_1_token": len(k1_ts),
     }
@@ -78,9 +89,12 @@ def run_case(case):
     cp, gen, m = lib()
     ts = ts_of(ts_s)
     kw = dict(timeout=0, relative_match_len=rml, max_stack_depth=d, latent_time=lat)
+    v = []
+    if sc == "random":
+        # the same arguments with a differently seeded scorer of the same class first: the call under test must not see its traces
+        cp(text, ts=ts, scorer=_mk(sc, seed + 7919), **kw)
     L = [c for c in gen(text, ts=ts, scorer=_mk(sc, seed), **kw)]
     r = cp(text, ts=ts, scorer=_mk(sc, seed), **kw)
-    v = []
     sig = {"scorer": sc}
     desc = "{!r} @{} scorer={} latent={} depth={} rml={}".format(text, ts_s, sc, lat, d, rml)
     L = [c for c in L if c is not None]
